@@ -112,6 +112,15 @@ def bayes(sx, shape, sym_obs_row=None, belief_sel=None, declared_obs=False, perm
                 items = dict(post.items())
                 if bool(tot == 0):
                     sx.prove(len(items) == 0, f'impossible-observation-empty-posterior[{a},{o}]')
+                    # the policy-side update follows the same (empty) posterior: no state keeps any mass
+                    from msdm.core.pomdp.policy import ValueBasedTabularPOMDPPolicy as _VB
+
+                    class _P0(_VB):
+                        def action_value(self, b_, a_):
+                            return 0
+                    nag0 = _P0(pomdp).next_agentstate(bel, AL[a], OL[o])
+                    for ns in range(sh.S):
+                        sx.prove_eq(at(nag0, ns), 0, f'agentstate-update-after-impossible-observation-is-empty[{a},{o},{ns}]', tol=0)
                 else:
                     sx.prove_eq(ssum(items.values()), 1, f'posterior-normalised[{a},{o}]')
                     for ns in range(sh.S):
